@@ -297,8 +297,8 @@ CHECKS = {
                 "distinct_nontrivial = distinct scenes",
         "phases": [{"variant": "interp-dbg", "monitor": "c15", "shards": 16, "tiers": ("quick",)},
                    {"variant": "interp-rel", "monitor": "c15", "shards": 16, "tiers": ("thorough",)},
-                   miri_phase("c15", 640)],
-        "floors": {"quick": {"evaluations": 600, "scenes-with-window-pixels": 100, "scenes-with-object-pixels": 150, "scenes-with-8x16-object-pixels": 60, "scenes-with-more-than-10-objects-on-a-line": 50},
+                   miri_phase("c15", 1920)],
+        "floors": {"quick": {"evaluations": 1_800, "scenes-with-window-pixels": 300, "scenes-with-object-pixels": 450, "scenes-with-8x16-object-pixels": 180, "scenes-with-more-than-10-objects-on-a-line": 150},
                    "thorough": {"evaluations": 19_000}},
         "exhaustive": {"quick": False, "thorough": False},
         "assumptions": ["DMG behaviour; registers, VRAM and OAM constant over the frame, LCD and BG enabled (as the property states)"],
